@@ -272,6 +272,59 @@ def D9_allclose_narrowing(kind="int64_wrap"):
     return True, f"mismatch reported: {res[1] if isinstance(res, tuple) else ''}"[:200]
 
 
+def _allclose_case(model_const, fn_value, expect_match, what, n_outputs=1):
+    """store a model returning model_const; fn returns fn_value; allclose must report `expect_match`"""
+    import jax.numpy as jnp
+    from jax2onnx import allclose
+    with tempfile.TemporaryDirectory() as d:
+        p = os.path.join(d, "m.onnx")
+        _const_model(model_const, p)
+        fn = (lambda x: jnp.asarray(fn_value)) if n_outputs == 1 else (lambda x: tuple(jnp.asarray(fn_value) for _ in range(n_outputs)))
+        try:
+            res = allclose(fn, p, [np.zeros((1,), np.float32)])
+        except Exception as e:
+            return True, f"allclose raised {type(e).__name__}"
+    ok = bool(res[0]) if isinstance(res, tuple) else bool(res)
+    if ok != expect_match:
+        return False, f"{what}: allclose reported {'a match' if ok else 'a mismatch'} (model returns {np.asarray(model_const).tolist()}, fn returns {np.asarray(fn_value).tolist()})"
+    return True, f"{what}: reported {'match' if ok else 'mismatch'} as required"
+
+
+def C18_nan_vs_finite():
+    a = _allclose_case(np.asarray([1.0, 2.0, np.nan, 4.0], np.float32), np.asarray([1.0, 2.0, 3.0, 4.0], np.float32), False, "NaN in the model only")
+    if not a[0]:
+        return a
+    b = _allclose_case(np.asarray([1.0, 2.0, 3.0], np.float32), np.asarray([1.0, np.nan, 3.0], np.float32), False, "NaN in fn only")
+    if not b[0]:
+        return b
+    return _allclose_case(np.asarray([1.0, np.nan], np.float32), np.asarray([1.0, np.nan], np.float32), True, "NaN on both sides")
+
+
+def C18_inf_vs_finite():
+    a = _allclose_case(np.asarray([1.0, np.inf], np.float32), np.asarray([1.0, 0.0], np.float32), False, "+inf in the model only")
+    if not a[0]:
+        return a
+    b = _allclose_case(np.asarray([1.0, -np.inf], np.float32), np.asarray([1.0, np.inf], np.float32), False, "opposite infinities")
+    if not b[0]:
+        return b
+    return _allclose_case(np.asarray([np.inf, 2.0], np.float32), np.asarray([np.inf, 2.0], np.float32), True, "same infinity on both sides")
+
+
+def C18_shape_mismatch():
+    return _allclose_case(np.zeros((2, 3), np.float32), np.zeros((3, 2), np.float32), False, "shape (2,3) vs (3,2)")
+
+
+def C18_count_mismatch():
+    return _allclose_case(np.zeros((2,), np.float32), np.zeros((2,), np.float32), False, "1 model output vs 2 fn outputs", n_outputs=2)
+
+
+def C18_beyond_tolerance():
+    a = _allclose_case(np.asarray([1.0, 2.0], np.float32), np.asarray([1.0, 2.1], np.float32), False, "one element off by 0.1")
+    if not a[0]:
+        return a
+    return _allclose_case(np.asarray([3, 4], np.int32), np.asarray([3, 5], np.int32), False, "integer element differs")
+
+
 # ---------------------------------------------------------------- C08
 def D15_forest_fold_stale_shape():
     jax, jnp = _jax()
@@ -425,6 +478,8 @@ def C17_range_bounds_family():
 
 
 ALL = {
+    "C18_nan_vs_finite": C18_nan_vs_finite, "C18_inf_vs_finite": C18_inf_vs_finite, "C18_shape_mismatch": C18_shape_mismatch,
+    "C18_count_mismatch": C18_count_mismatch, "C18_beyond_tolerance": C18_beyond_tolerance,
     "C17_range_bounds_family": C17_range_bounds_family,
     "C13_apply_patches_restores": C13_apply_patches_restores,
     "C13_x64_flag_restored": C13_x64_flag_restored,
